@@ -149,6 +149,92 @@ fn lines_encode_all(items: &[String], rep: &mut Report) -> BytesMut {
     dst
 }
 
+/// ONE real `LinesCodec` instance, the buffer growing piece by piece: `decode` until `None` after
+/// every piece (not after the last one when `direct`: `decode_eof` then meets complete lines itself),
+/// at the end `decode_eof` until `None`
+fn lines_chunks(pieces: &[Vec<u8>], direct: bool, rep: &mut Report) -> String {
+    let whole: Vec<u8> = pieces.concat();
+    let what = format!("{} {}", if direct { "chunkse" } else { "chunks" }, pieces.iter().map(|p| hex(p)).collect::<Vec<_>>().join(" "));
+    let r = catch(|| {
+        let mut codec = LinesCodec::default();
+        let mut src = BytesMut::new();
+        let mut all: Vec<LineItem> = vec![];
+        let mut shown: Vec<String> = vec![];
+        let mut bad_kind = false;
+        let bound = whole.len() + 3;
+        let mut conv = |r: std::io::Result<Option<String>>| -> Option<LineItem> {
+            match r {
+                Ok(None) => None,
+                Ok(Some(s)) => Some(LineItem::Ok(s.into_bytes())),
+                Err(e) => {
+                    bad_kind |= e.kind() != std::io::ErrorKind::InvalidData;
+                    Some(LineItem::Err)
+                }
+            }
+        };
+        let mut spin = false;
+        for (i, p) in pieces.iter().enumerate() {
+            src.extend_from_slice(p);
+            if direct && i + 1 == pieces.len() {
+                shown.push("-".into());
+                break;
+            }
+            let mut here = vec![];
+            while let Some(x) = conv(codec.decode(&mut src)) {
+                here.push(x);
+                if here.len() > bound {
+                    spin = true;
+                    break;
+                }
+            }
+            shown.push(item_list(&here));
+            all.extend(here);
+        }
+        let mut eof = vec![];
+        while let Some(x) = conv(codec.decode_eof(&mut src)) {
+            eof.push(x);
+            if eof.len() > bound {
+                spin = true;
+                break;
+            }
+        }
+        all.extend(eof.iter().cloned());
+        (format!("p={} eof={} rest={}{}", shown.join("|"), item_list(&eof), hex(&src), if spin { " spin" } else { "" }), all, spin, bad_kind)
+    });
+    match r {
+        Err(_) => {
+            rep.t3("C15", &format!("LinesCodec panicked on {what}"));
+            "panic".into()
+        }
+        Ok((o, all, spin, bad_kind)) => {
+            let want = lines_reference(&whole);
+            if all != want || spin {
+                rep.t3("C15", &format!("one LinesCodec instance fed in pieces ({what}) yields {}{} but the reference splitter says {}", item_list(&all), if spin { " (no end)" } else { "" }, item_list(&want)));
+            }
+            if bad_kind {
+                rep.t3("C15", &format!("decode error of a kind other than InvalidData on {what}"));
+            }
+            o
+        }
+    }
+}
+
+/// all ways of cutting `s` into `k` consecutive (possibly empty) pieces
+fn splits(s: &[u8], k: usize) -> Vec<Vec<Vec<u8>>> {
+    if k == 1 {
+        return vec![vec![s.to_vec()]];
+    }
+    let mut out = vec![];
+    for i in 0..=s.len() {
+        for mut rest in splits(&s[i..], k - 1) {
+            let mut v = vec![s[..i].to_vec()];
+            v.append(&mut rest);
+            out.push(v);
+        }
+    }
+    out
+}
+
 fn parse_strs(ws: &[&str]) -> Option<Vec<String>> {
     ws.iter().map(|h| unhex(h).and_then(|v| String::from_utf8(v).ok())).collect()
 }
@@ -184,6 +270,35 @@ fn gen_c15(a: &Args, w: &mut dyn Write) {
         n += 1;
         writeln!(w, "dec {}", hex(s)).unwrap();
     });
+    // (1b) ONE codec instance across several calls, the buffer growing in pieces: every two- and
+    // three-piece split (empty pieces included) of every string up to the bound; `chunkse`: the last
+    // piece is not decoded before `decode_eof` (which then meets complete lines, valid and invalid)
+    {
+        let (l2, l3, l1) = if thorough { (6, 5, 7) } else { (5, 4, 6) };
+        let mut n = 0usize;
+        let mut line = |w: &mut dyn Write, op: &str, ps: &[Vec<u8>]| {
+            if n % 8000 == 0 {
+                writeln!(w, "case chunked-exhaustive-{}", n / 8000).unwrap();
+            }
+            n += 1;
+            writeln!(w, "{op} {}", ps.iter().map(|p| hex(p)).collect::<Vec<_>>().join(" ")).unwrap();
+        };
+        all_strings(&LINES_ALPHABET, l1, &mut |s| {
+            line(w, "chunkse", &[s.to_vec()]);
+            if s.len() <= l2 {
+                for ps in splits(s, 2) {
+                    line(w, "chunks", &ps);
+                    line(w, "chunkse", &ps);
+                }
+            }
+            if s.len() <= l3 {
+                for ps in splits(s, 3) {
+                    line(w, "chunks", &ps);
+                    line(w, "chunkse", &ps);
+                }
+            }
+        });
+    }
     // (2) round trip: all sequences of up to 3 strings; strings = all sequences of up to `u` units
     let units: [&[u8]; 4] = [b"a", b"\r", b"\n", "é".as_bytes()];
     let u = if thorough { 3 } else { 2 };
@@ -234,6 +349,21 @@ fn gen_c15(a: &Args, w: &mut dyn Write) {
             }
             1 => writeln!(w, "rt {}", hex(&s)).unwrap(), // bad-op when not UTF-8
             2 => writeln!(w, "dec {}x", hex(&s)).unwrap(), // malformed hex
+            3..=5 => {
+                // the text cut at random places into 1..6 pieces for one codec instance
+                let k = rng.range(1, 6);
+                let mut cuts: Vec<usize> = (0..k - 1).map(|_| rng.below(s.len() + 1)).collect();
+                cuts.sort();
+                let mut ps = vec![];
+                let mut at = 0;
+                for c in cuts {
+                    ps.push(s[at..c].to_vec());
+                    at = c;
+                }
+                ps.push(s[at..].to_vec());
+                let op = if rng.chance(1, 2) { "chunks" } else { "chunkse" };
+                writeln!(w, "{op} {}", ps.iter().map(|p| hex(p)).collect::<Vec<_>>().join(" ")).unwrap();
+            }
             _ => writeln!(w, "dec {}", hex(&s)).unwrap(),
         }
     }
@@ -275,6 +405,10 @@ fn step_c15(ws: &[&str], rep: &mut Report) -> Option<String> {
     Some(match ws {
         ["dec", hx] => match unhex(hx) {
             Some(bs) => lines_run(&bs, rep),
+            None => "bad-op".into(),
+        },
+        [op @ ("chunks" | "chunkse"), hs @ ..] if !hs.is_empty() => match hs.iter().map(|h| unhex(h)).collect::<Option<Vec<Vec<u8>>>>() {
+            Some(ps) => lines_chunks(&ps, *op == "chunkse", rep),
             None => "bad-op".into(),
         },
         ["enc", hs @ ..] => match parse_strs(hs) {
@@ -627,14 +761,46 @@ impl Encoder<Vec<u8>> for LenCodec {
     }
 }
 
+/// A second length-prefixed test codec (mirrored by `lenxCodec` in Model/Framed.lean) with SEVERAL
+/// end-of-stream frames: `decode` as `LenCodec`; at end of stream a truncated frame comes out as one
+/// `T`-frame (`b'T'` + what is left, everything consumed), then, on the empty buffer, one `E`-frame;
+/// the codec remembers that by leaving the mark `0xFE` in the buffer, on which `decode_eof` answers
+/// `None` for good.
+#[derive(Default)]
+struct LenXCodec(LenCodec);
+
+impl Decoder for LenXCodec {
+    type Item = Vec<u8>;
+    type Error = io::Error;
+    fn decode(&mut self, src: &mut BytesMut) -> Result<Option<Vec<u8>>, io::Error> {
+        self.0.decode(src)
+    }
+    fn decode_eof(&mut self, src: &mut BytesMut) -> Result<Option<Vec<u8>>, io::Error> {
+        match self.0.decode(src)? {
+            Some(f) => Ok(Some(f)),
+            None if src.is_empty() => {
+                src.put_u8(0xFE);
+                Ok(Some(vec![b'E']))
+            }
+            None if src[..] == [0xFE] => Ok(None),
+            None => {
+                let mut f = vec![b'T'];
+                f.extend_from_slice(&src.split());
+                Ok(Some(f))
+            }
+        }
+    }
+}
+
 #[derive(Clone, Copy, PartialEq, Debug)]
 enum Sel {
     Lines,
     Bytes,
     Len,
+    LenX,
 }
 
-const SELS: [Sel; 3] = [Sel::Lines, Sel::Len, Sel::Bytes];
+const ALL_SELS: [Sel; 4] = [Sel::Lines, Sel::Len, Sel::Bytes, Sel::LenX];
 
 impl Sel {
     fn name(self) -> &'static str {
@@ -642,6 +808,7 @@ impl Sel {
             Sel::Lines => "lines",
             Sel::Bytes => "bytes",
             Sel::Len => "len",
+            Sel::LenX => "lenx",
         }
     }
     fn parse(s: &str) -> Option<Sel> {
@@ -649,6 +816,7 @@ impl Sel {
             "lines" => Some(Sel::Lines),
             "bytes" => Some(Sel::Bytes),
             "len" => Some(Sel::Len),
+            "lenx" => Some(Sel::LenX),
             _ => None,
         }
     }
@@ -667,6 +835,7 @@ struct AnyCodec {
     lines: LinesCodec,
     bytes: BytesCodec,
     len: LenCodec,
+    lenx: LenXCodec,
     cnt: Rc<RefCell<Counters>>,
 }
 
@@ -675,7 +844,7 @@ impl AnyCodec {
         AnyCodec::with_counters(sel, Default::default())
     }
     fn with_counters(sel: Sel, cnt: Rc<RefCell<Counters>>) -> Self {
-        AnyCodec { sel, lines: LinesCodec::default(), bytes: BytesCodec, len: LenCodec, cnt }
+        AnyCodec { sel, lines: LinesCodec::default(), bytes: BytesCodec, len: LenCodec, lenx: LenXCodec::default(), cnt }
     }
 }
 
@@ -688,6 +857,7 @@ impl Decoder for AnyCodec {
             Sel::Lines => self.lines.decode(src).map(|o| o.map(String::into_bytes)),
             Sel::Bytes => self.bytes.decode(src).map(|o| o.map(|b| b.to_vec())),
             Sel::Len => self.len.decode(src),
+            Sel::LenX => self.lenx.decode(src),
         }
     }
     fn decode_eof(&mut self, src: &mut BytesMut) -> Result<Option<Vec<u8>>, io::Error> {
@@ -696,6 +866,7 @@ impl Decoder for AnyCodec {
             Sel::Lines => self.lines.decode_eof(src).map(|o| o.map(String::into_bytes)),
             Sel::Bytes => self.bytes.decode_eof(src).map(|o| o.map(|b| b.to_vec())),
             Sel::Len => self.len.decode_eof(src),
+            Sel::LenX => self.lenx.decode_eof(src),
         }
     }
 }
@@ -710,7 +881,7 @@ impl Encoder<Vec<u8>> for AnyCodec {
                 Err(_) => Err(io::Error::new(io::ErrorKind::InvalidData, "not a str")),
             },
             Sel::Bytes => self.bytes.encode(Bytes::from(item), dst),
-            Sel::Len => self.len.encode(item, dst),
+            Sel::Len | Sel::LenX => self.len.encode(item, dst),
         }
     }
 }
@@ -764,6 +935,8 @@ struct Session {
     out_sel: Vec<Sel>,
     /// read snapshots already examined by the oracle
     snaps_checked: usize,
+    /// `outs.len()` at every codec swap
+    swap_points: Vec<usize>,
     dead: bool,
     /// concatenated encodings (computed by the harness, not by the codec) of the accepted items
     accepted: Vec<u8>,
@@ -806,6 +979,7 @@ impl Session {
             outs: vec![],
             out_sel: vec![],
             snaps_checked: 0,
+            swap_points: vec![],
             dead: false,
             accepted: vec![],
         }
@@ -867,6 +1041,7 @@ impl Session {
         };
         self.framed = Some(f2);
         self.sel = sel;
+        self.swap_points.push(self.outs.len());
         self.io.0.borrow_mut().sels_since_arrival.push(sel);
         true
     }
@@ -1002,9 +1177,20 @@ fn oracle_c13(s: &mut Session, rep: &mut Report) {
         rep.t3("C13", "poll_next panicked or did not return (watchdog)");
         return;
     }
-    if let Some(i) = frames.iter().position(|(o, _)| *o == Out::None) {
-        if frames[i..].iter().any(|(o, _)| *o != Out::None) {
-            rep.t3("C13", "an item after None");
+    // after `None` only `None` — as long as the codec is not swapped (another codec may have
+    // end-of-stream frames of its own)
+    let mut none_seen_at: Option<usize> = None;
+    for (idx, o) in s.outs.iter().enumerate() {
+        if let Some(i) = none_seen_at {
+            if s.out_sel[idx] != s.out_sel[i] || s.swap_points.iter().any(|p| *p > i && *p <= idx) {
+                none_seen_at = None;
+            } else if o.is_frame() && *o != Out::None {
+                rep.t3("C13", "an item after None");
+                break;
+            }
+        }
+        if *o == Out::None && none_seen_at.is_none() {
+            none_seen_at = Some(idx);
         }
     }
     // the reference: walk the delivered stream with fresh codecs, segment by segment
@@ -1013,6 +1199,9 @@ fn oracle_c13(s: &mut Session, rep: &mut Report) {
     let all: Vec<Out> = frames.iter().map(|(o, _)| o.clone()).collect();
     let mut offs: Vec<usize> = vec![0]; // offs[j] = bytes consumed by the first j frame outputs
     let mut off = 0usize;
+    // the reference's own buffer: the whole delivered stream, handed from codec to codec at a swap
+    // (with whatever a codec's decode_eof left in it)
+    let mut src = BytesMut::from(&d[..]);
     let mut i = 0usize;
     let mut ok = true;
     while i < frames.len() && ok {
@@ -1029,12 +1218,13 @@ fn oracle_c13(s: &mut Session, rep: &mut Report) {
                             if f.is_empty() {
                                 rep.t3("C13", "BytesCodec yielded an empty item");
                             }
-                            if !d[off..].starts_with(f) {
-                                rep.t3("C13", &format!("BytesCodec items [{}] are not a chunking of the stream: after {off} bytes the stream continues {} but the item is {}", show_outs(&all), show_bytes(&d[off..(off + f.len()).min(d.len())]), show_bytes(f)));
+                            if !src.starts_with(f) {
+                                rep.t3("C13", &format!("BytesCodec items [{}] are not a chunking of the stream: after {off} bytes the stream continues {} but the item is {}", show_outs(&all), show_bytes(&src[..f.len().min(src.len())]), show_bytes(f)));
                                 ok = false;
                                 break;
                             }
-                            off += f.len();
+                            src.advance(f.len());
+                            off = d.len().saturating_sub(src.len());
                         }
                         Out::DecErr(k) => {
                             rep.t3("C13", &format!("BytesCodec decode error {k:?}"));
@@ -1043,7 +1233,7 @@ fn oracle_c13(s: &mut Session, rep: &mut Report) {
                         }
                         _ => {
                             // None: everything delivered must have been yielded, and only at end of file
-                            if off != d.len() || !at_eof {
+                            if !src.is_empty() || !at_eof {
                                 rep.t3("C13", &format!("BytesCodec: None after {off} of the {} bytes delivered (end of file answered: {at_eof}); items [{}]", d.len(), show_outs(&all)));
                                 ok = false;
                                 break;
@@ -1055,7 +1245,6 @@ fn oracle_c13(s: &mut Session, rep: &mut Report) {
             }
             _ => {
                 let mut codec = AnyCodec::new(sel);
-                let mut src = BytesMut::from(&d[off..]);
                 for (k, (o, _)) in frames[i..j].iter().enumerate() {
                     let mut w = conv_dec(codec.decode(&mut src));
                     if w == Out::None {
@@ -1073,7 +1262,8 @@ fn oracle_c13(s: &mut Session, rep: &mut Report) {
                         ok = false;
                         break;
                     }
-                    off = d.len() - src.len();
+                    // (an end-of-stream frame may leave a mark in the buffer: nothing is read after that)
+                    off = d.len().saturating_sub(src.len());
                     offs.push(off);
                 }
             }
@@ -1221,8 +1411,14 @@ fn step_c13(ws: &[&str], s: &mut Session, rep: &mut Report) -> Option<String> {
     })
 }
 
-const C13_ALPHABETS: [(Sel, &[u8]); 3] =
-    [(Sel::Lines, &[b'a', b'\r', b'\n', 0xFF]), (Sel::Len, &[0, 1, 2, 0xFF]), (Sel::Bytes, &[b'a', b'\n'])];
+/// codec, alphabet, how much shorter than the tier's bound the strings are
+const C13_ALPHABETS: [(Sel, &[u8], usize); 4] = [
+    (Sel::Lines, &[b'a', b'\r', b'\n', 0xFF], 0),
+    (Sel::Len, &[0, 1, 2, 0xFF], 0),
+    (Sel::Bytes, &[b'a', b'\n'], 0),
+    // several end-of-stream frames (a truncated frame, then the end mark): every one must come out
+    (Sel::LenX, &[0, 1, 2, 0xFF], 1),
+];
 
 /// alphabet of the codec-swap cases: a delimiter for `LinesCodec`, short frames for the
 /// length-prefixed codec (`00` = empty frame, `01 x` = one byte), and a byte that starts a frame
@@ -1329,7 +1525,7 @@ fn long_stream(rng: &mut Rng, sel: Sel) -> Vec<u8> {
                 }
                 v.push(b'\n');
             }
-            Sel::Len => {
+            Sel::Len | Sel::LenX => {
                 if rng.chance(1, 40) {
                     v.push(0xFF);
                 } else {
@@ -1382,8 +1578,12 @@ fn gen_c13(a: &Args, w: &mut dyn Write) {
                 }
                 let polls = chunks.len() + s.len() + 3;
                 let p = chunks.len() + 1;
-                for a_sel in SELS {
-                    for b_sel in SELS {
+                for a_sel in ALL_SELS {
+                    for b_sel in ALL_SELS {
+                        // the codec with several end-of-stream frames: with itself and with LinesCodec only
+                        if (a_sel == Sel::LenX || b_sel == Sel::LenX) && !matches!((a_sel, b_sel), (Sel::LenX, Sel::LenX) | (Sel::LenX, Sel::Lines) | (Sel::Lines, Sel::LenX)) {
+                            continue;
+                        }
                         for before in (if s.len() == 4 { 1 } else { 0 })..=(if s.len() >= 3 { 3 } else { 2 }) {
                             emit_swap(w, &mut id, a_sel, b_sel, "plain", &script_with(&chunks, &[]), before, polls);
                             for i in 0..p {
@@ -1398,9 +1598,9 @@ fn gen_c13(a: &Args, w: &mut dyn Write) {
             }
         });
     }
-    for (sel, alphabet) in C13_ALPHABETS {
+    for (sel, alphabet, shorter) in C13_ALPHABETS {
         let extra = if alphabet.len() == 2 { 2 } else { 0 };
-        let (la, lb) = if thorough { (6 + extra, 5 + extra) } else { (5 + extra, 4 + extra) };
+        let (la, lb) = if thorough { (6 + extra - shorter, 5 + extra - shorter) } else { (5 + extra - shorter, 4 + extra - shorter) };
         let mut k = 0usize;
         all_strings(alphabet, la, &mut |s| {
             for chunks in compositions(s) {
@@ -1444,9 +1644,9 @@ fn gen_c13(a: &Args, w: &mut dyn Write) {
     // (G) bytes handed over in `read_buf` (`FramedParts::with_read_buf`, flags empty): every split of
     // every string into a handed-over prefix and a rest delivered by reads (every composition, a
     // Pending at every place)
-    for (sel, alphabet) in C13_ALPHABETS {
+    for (sel, alphabet, shorter) in C13_ALPHABETS {
         let extra = if alphabet.len() == 2 { 2 } else { 0 };
-        let lg = if thorough { 5 + extra } else { 4 + extra };
+        let lg = if thorough { 5 + extra - shorter } else { 4 + extra - shorter };
         all_strings(alphabet, lg, &mut |s| {
             for j in 1..=s.len() {
                 let init = format!(" init=rbuf:{}", hex(&s[..j]));
@@ -1464,7 +1664,7 @@ fn gen_c13(a: &Args, w: &mut dyn Write) {
     let mut rng = Rng::new(a.seed ^ 0x13);
     let cases = if thorough { 900 } else { 210 };
     for c in 0..cases {
-        let sel = [Sel::Lines, Sel::Len, Sel::Bytes][c % 3];
+        let sel = [Sel::Lines, Sel::Len, Sel::Bytes, Sel::Lines, Sel::LenX, Sel::Bytes][c % 6];
         let stream = long_stream(&mut rng, sel);
         let mut script = vec![];
         let mut i = 0;
@@ -1503,7 +1703,7 @@ fn gen_c13(a: &Args, w: &mut dyn Write) {
         for part in evs.chunks(12) {
             writeln!(w, "script {}", part.join(" ")).unwrap();
         }
-        let frames: usize = SELS.iter().map(|c| whole_stream(*c, &stream, true, 0).len()).sum();
+        let frames: usize = ALL_SELS.iter().map(|c| whole_stream(*c, &stream, true, 0).len()).sum::<usize>() + 4;
         let swaps = if rng.chance(1, 3) { rng.range(1, 3) } else { 0 };
         let polls = (script.len() + if swaps > 0 { frames } else { whole_stream(sel, &stream, true, 0).len() } + 4).min(10000);
         if rng.chance(1, 3) {
@@ -1518,7 +1718,7 @@ fn gen_c13(a: &Args, w: &mut dyn Write) {
             if rng.chance(1, 4) {
                 writeln!(w, "mapio").unwrap();
             }
-            writeln!(w, "swap {} {}", rng.pick(&SELS).name(), rng.pick(&VIAS)).unwrap();
+            writeln!(w, "swap {} {}", rng.pick(&ALL_SELS).name(), rng.pick(&VIAS)).unwrap();
         }
         writeln!(w, "drain {polls}").unwrap();
         writeln!(w, "poll").unwrap();
@@ -1604,7 +1804,7 @@ fn expected_encoding(sel: Sel, item: &[u8]) -> Vec<u8> {
     match sel {
         Sel::Lines => [item, b"\n"].concat(),
         Sel::Bytes => item.to_vec(),
-        Sel::Len => [&[item.len() as u8][..], item].concat(),
+        Sel::Len | Sel::LenX => [&[item.len() as u8][..], item].concat(),
     }
 }
 
@@ -1882,7 +2082,7 @@ fn show_fl(e: &Fl) -> String {
 }
 
 fn random_wconfig(rng: &mut Rng) -> WConfig {
-    let sel = *rng.pick(&[Sel::Lines, Sel::Bytes, Sel::Len]);
+    let sel = *rng.pick(&[Sel::Lines, Sel::Bytes, Sel::Len, Sel::Lines, Sel::Bytes, Sel::LenX]);
     let size_pool: &[usize] = match rng.below(4) {
         0 => &[0, 1, 2, 3, 5],
         1 => &[1022, 1023, 1024, 1025, 1, 0],
@@ -1961,7 +2161,7 @@ fn emit_c14(w: &mut dyn Write, id: &mut usize, tag: &str, cfg: &WConfig, ops: &[
             2 => writeln!(w, "{}", if inherent { "xflush" } else { "flush" }).unwrap(),
             3 => writeln!(w, "{}", if inherent { "xclose" } else { "close" }).unwrap(),
             4 => {
-                sel = SELS[(SELS.iter().position(|c| *c == sel).unwrap() + 1 + (*id + n_op) % 2) % 3];
+                sel = ALL_SELS[(ALL_SELS.iter().position(|c| *c == sel).unwrap() + 1 + (*id + n_op) % 3) % 4];
                 writeln!(w, "swap {} {}", sel.name(), VIAS[(*id + n_op) % 3]).unwrap();
             }
             5 => writeln!(w, "mapio").unwrap(),
@@ -2110,6 +2310,7 @@ fn parse_case(ws: &[&str]) -> Option<(Sel, Init)> {
             "codec=lines" => sel = Sel::Lines,
             "codec=bytes" => sel = Sel::Bytes,
             "codec=len" => sel = Sel::Len,
+            "codec=lenx" => sel = Sel::LenX,
             x if x.starts_with("codec=") => return None,
             "init=new" => init = Init::New,
             "init=parts" => init = Init::Parts,
